@@ -797,7 +797,10 @@ func genOrdered(r *hutil.Rand, k int, next caseDesc) ([]caseDesc, caseDesc, stri
 		pd.Mode.Framed = true // as in the daemon, through the syslog ingester
 	}
 	if r.Chance(1, 4) {
-		pd.Tok = next.Tok // the same sshd process printed both lines
+		pd.Tok, pd.TokHex = next.Tok, "" // the same sshd process printed both lines
+	}
+	if pd.Mode.Framed && (strings.Contains(pd.Tok, " ") || strings.HasPrefix(pd.Gen.Line, " ")) {
+		pd.Mode.Framed = false // framed delivery is "as if handed over directly" only for such records (main.go: genCase)
 	}
 	pd.seal()
 	prevs := []caseDesc{pd}
@@ -818,7 +821,7 @@ func genOrdered(r *hutil.Rand, k int, next caseDesc) ([]caseDesc, caseDesc, stri
 		}
 		follow.Gen = clientNameLine(clientForms[(k+k/len(precedingForms)/2)%len(clientForms)], genEmbeddingName(r, form), addr, genPort(r))
 		follow.LineHex = ""
-		if follow.Mode.Framed && strings.Contains(follow.Tok, " ") {
+		if follow.Mode.Framed && (strings.Contains(follow.Tok, " ") || strings.HasPrefix(follow.Gen.Line, " ")) {
 			follow.Mode.Framed, follow.Mode.Pad = false, 0
 		}
 		follow.seal()
